@@ -62,6 +62,8 @@ add("C26", EX, "Bounded-exhaustive exploration on the real overlap code: every c
     "small-scope exhaustive enumeration (all chunkings x depths x boundaries) against a NumPy reference")
 add("C35", EX, "Bounded-exhaustive exploration of map_blocks, blockwise and apply_gufunc over every chunking of small inputs with probing user functions whose received blocks are located by their distinct values: one call per output block, block alignment incl. broadcast blocks, block_id/block_info truth, metadata of drop_axis/new_axis/adjust_chunks, values against NumPy / np.vectorize.", "5/C35", ARR_NOTE,
     "small-scope exhaustive enumeration with value-traced probe functions against a NumPy reference")
+add("C17", MC, "Breadth-first search over ALL histories (depth 4/5) of config.set enter/exit calls (single and multi-key, both spellings, prefix conflicts, kwargs form) on a real private config dict against a deepcopy snapshot-stack model, plus exhaustive small-scope enumeration of update/merge (all ordered pairs of 47 nested dicts x priorities x defaults), collect_env (all environments of <= 2 variables) and serialize round trips.", "5/C17", "Trusted: the snapshot-stack model and the reference update() written from the docstrings; LIFO exits only.",
+    "explicit-state BFS over operation histories of the real config machinery with a reference model")
 
 
 def build():
